@@ -1,14 +1,23 @@
-(* C18 — model of ArgumentParser.save (jsonargparse/_core.py:856-951) over a file system.
+(* C18 — model of ArgumentParser.save (jsonargparse/_core.py, def save) over a file system.
 
-   The target directory is a flat map  name -> File content | Dir.  `save` is the ordered list of
-   effectful steps exactly as the code performs them (bugs included):
+   The target directory is a flat map  name -> File content | Dir.  A save is the ordered list of
+   effectful steps exactly as the code performs them.
 
-     single-file   Path(path,"fc"); check_overwrite; open(path,"w"); dump() = validate + render; write
-     multi-file    Path(path,"fc"); check_overwrite; validate;
+   THE MODEL OF THE CODE IS  save_fixed  (the order since "fix: save renders and validates every file
+   before writing any, and refuses two configs mapped to one file"):
+
+     single-file   Path(path,"fc"); check_overwrite; dump() = validate + render; open(path,"w"); write
+     multi-file    Path(path,"fc"); check_overwrite; validate; pending := []
                    for every __path__ sub-config / save_path_content entry, deepest key first:
-                       Path(basename,"fc"); check_overwrite; render; open(…,"w"); write
-                       (save_path_content entries: open(…,"w") BEFORE get_content())
-                   open(path,"w"); dump(skip_validation=True); write
+                       Path(basename,"fc"); check_overwrite; render (dump_using_format | __orig__ | get_content());
+                       add_pending(name, text)   -- ValueError when name is the main file or already pending
+                   pending.append((path, dump(skip_validation=True)))
+                   for (name, text) in pending: open(name,"w"); write(text)
+
+   save_old  is the order of the tree BEFORE that fix (open(path,"w") before dump() in single-file mode;
+   each sub-file written as soon as it is rendered, open() before get_content(), the main file opened
+   before the final dump, no collision test).  It is kept only so that the four defects of the old order
+   stay machine-checked regression witnesses (Properties/C18.v, `..._old_order_refuted`).
 
    What validate / dump_using_format / get_content answer is not modelled: it is an oracle carried
    by the input (i_valid, the `outcome`s, i_failcall = "the n-th dump_using_format call raises").
@@ -68,6 +77,12 @@ Record input := {
   i_overwrite : bool;
   i_skipval : bool;
   i_dir_ok : bool;                  (* parent directory of the target exists and is writeable *)
+  i_alias : bool;                   (* the target path as given is not the normal form <resolved directory>/<name>
+                                       ("./main.yaml", "../d/main.yaml", a doubled slash, a symbolic link in the
+                                       directory part): path_fc.absolute (os.path.join(cwd, given), not normalised)
+                                       then differs textually from the sub-file paths (built from os.getcwd() after
+                                       change_to_path_dir), and add_pending's `file_path == path_fc.absolute` is
+                                       never true *)
   i_main : name;
   i_fs : fs;                        (* the target directory before the call *)
   i_valid : bool;                   (* would self.validate(cfg) pass *)
@@ -87,10 +102,10 @@ Inductive step :=
 | SReadHere (n : name)        (* register := content of n in the target directory, as it is NOW *)
 | SReadExt (c : option content)
 | SWrite (n : name)           (* f.write(register) *)
-| SStash (n : name)           (* only in the repaired order: remember (n, register) for a sub-file; refuses a
-                                 name that is the main file or already remembered *)
-| SStashMain (n : name)       (* only in the repaired order: remember (n, register) for the main file *)
-| SFlush.                     (* only in the repaired order: open+write everything remembered *)
+| SStash (n : name)           (* add_pending(n, register) for a sub-file: refuses a name that is already pending or
+                                 (compared as absolute path strings, see i_alias) the main file *)
+| SStashMain (n : name)       (* pending.append((n, register)) for the main file *)
+| SFlush.                     (* the final loop: open + write everything pending *)
 
 Record st := { st_fs : fs; st_reg : content; st_calls : nat; st_pending : list (name * content) }.
 
@@ -125,7 +140,7 @@ Definition exec1 (i : input) (s : step) (t : st) : res :=
   | SReadExt (Some c) => Ok (set_reg t c)
   | SWrite n => Ok (set_fs t (write (st_fs t) n (st_reg t)))
   | SStash n =>
-      if str_eqb n (i_main i) || mem_str n (map fst (st_pending t)) then Er EClash
+      if (negb (i_alias i) && str_eqb n (i_main i)) || mem_str n (map fst (st_pending t)) then Er EClash
       else Ok {| st_fs := st_fs t; st_reg := st_reg t; st_calls := st_calls t;
                  st_pending := st_pending t ++ [(n, st_reg t)] |}
   | SStashMain n => Ok {| st_fs := st_fs t; st_reg := st_reg t; st_calls := st_calls t;
@@ -156,32 +171,7 @@ Fixpoint insert_desc (x : sub) (l : list sub) : list sub :=
 Definition order (l : list sub) : list sub :=
   fold_right insert_desc [] (filter (fun x => negb (s_branch x)) l ++ filter s_branch l).
 
-Definition sub_steps (x : sub) : list step :=
-  let n := s_name x in
-  match s_src x with
-  | SrcDump o => [SPathFc n; SCheckOverwrite n; SDumpCall o; SOpenW n; SWrite n]
-  | SrcOrig c => [SPathFc n; SCheckOverwrite n; SSetReg c; SOpenW n; SWrite n]
-  | SrcPathHere => [SPathFc n; SCheckOverwrite n; SOpenW n; SReadHere n; SWrite n]
-  | SrcPathExt c => [SPathFc n; SCheckOverwrite n; SOpenW n; SReadExt c; SWrite n]
-  end.
-
-Definition steps (i : input) : list step :=
-  let m := i_main i in
-  if i_multifile i then
-    [SPathFc m; SCheckOverwrite m; SValidate]
-      ++ flat_map sub_steps (order (i_subs i))
-      ++ [SOpenW m; SDumpCall (i_mainr i); SWrite m]
-  else
-    [SPathFc m; SCheckOverwrite m; SOpenW m; SValidate; SDumpCall (i_full i); SWrite m].
-
-Definition init (i : input) : st :=
-  {| st_fs := i_fs i; st_reg := empty_text; st_calls := 0; st_pending := [] |}.
-
-Definition save (i : input) : fs * option err :=
-  let r := exec i (steps i) (init i) in (st_fs (fst r), snd r).
-
-(* ---- the repaired order (fixes/C18-render-before-write.patch): check and render everything,
-   then write ------------------------------------------------------------------------------- *)
+(* ---- THE MODEL: check and render everything, then write (the code since the fix) ------------ *)
 Definition sub_steps_fixed (x : sub) : list step :=
   let n := s_name x in
   match s_src x with
@@ -202,8 +192,15 @@ Definition check_phase (i : input) : list step :=
 
 Definition steps_fixed (i : input) : list step := check_phase i ++ [SFlush].
 
+Definition init (i : input) : st :=
+  {| st_fs := i_fs i; st_reg := empty_text; st_calls := 0; st_pending := [] |}.
+
 Definition save_fixed (i : input) : fs * option err :=
   let r := exec i (steps_fixed i) (init i) in (st_fs (fst r), snd r).
+
+(* the file names save is asked to produce *)
+Definition targets (i : input) : list name :=
+  i_main i :: (if i_multifile i then map s_name (i_subs i) else []).
 
 (* ---- what a successful save must have put on disk for a later parse to give cfg back -------- *)
 Definition expected (f0 : fs) (x : sub) : option content :=
@@ -230,28 +227,48 @@ Definition reparse_ok (i : input) (f' : fs) : bool :=
     && forallb (fun x => holds f' (s_name x) (expected (i_fs i) x)) (i_subs i)
   else holds f' (i_main i) (out_content (i_full i)).
 
-(* ---- classes: 0 = inside the guard of the theorems, k>0 = finding class k ------------------ *)
-Definition target_check_fails (i : input) : bool :=
-  negb (i_dir_ok i) || is_dir (i_fs i) (i_main i) || (negb (i_overwrite i) && is_file (i_fs i) (i_main i)).
-
-Definition validate_fails (i : input) : bool := negb (i_skipval i) && negb (i_valid i).
-
-Definition failed (i : input) : bool :=
-  match snd (save i) with Some _ => true | None => false end.
-
-Definition is_here (x : sub) : bool := match s_src x with SrcPathHere => true | _ => false end.
-
 Fixpoint nodup_str (l : list str) : bool :=
   match l with [] => true | x :: l' => negb (mem_str x l') && nodup_str l' end.
 
+(* two of the files a multi-file save has to produce share one name *)
 Definition name_clash (i : input) : bool :=
   negb (nodup_str (map s_name (i_subs i))) || mem_str (i_main i) (map s_name (i_subs i)).
 
-Definition classify (i : input) : N :=
-  if target_check_fails i then 0
-  else if negb (i_multifile i) then (if failed i then 1 else 0)   (* single-file: dump() fails after open *)
-  else if validate_fails i then 0
-  else if failed i then 2                                          (* multi-file: fails after validation *)
-  else if existsb is_here (i_subs i) then 4                        (* content file saved onto itself *)
-  else if name_clash i then 3                                      (* two targets share one file name *)
-  else 0.
+(* ---- class 1 (open finding collision-with-main-unnormalised-path): a sub-file named like the main file
+   while the target path is not in normal form — the collision test against the main file compares
+   absolute path STRINGS and misses it.  0 = inside the guard of the guarded theorems. *)
+Definition alias_clash (i : input) : bool :=
+  i_multifile i && i_alias i && mem_str (i_main i) (map s_name (i_subs i)).
+
+Definition classify (i : input) : N := if alias_clash i then 1 else 0.
+
+(* the same call on a tree where paths are compared after resolving links (fixes/C18-collision-realpath.patch) *)
+Definition no_alias (i : input) : input :=
+  {| i_multifile := i_multifile i; i_overwrite := i_overwrite i; i_skipval := i_skipval i; i_dir_ok := i_dir_ok i;
+     i_alias := false; i_main := i_main i; i_fs := i_fs i; i_valid := i_valid i; i_full := i_full i;
+     i_subs := i_subs i; i_mainr := i_mainr i; i_failcall := i_failcall i |}.
+
+Definition is_some {A} (o : option A) : bool := match o with Some _ => true | None => false end.
+
+(* ================================================================================================
+   REGRESSION ONLY: the order of the tree before the fix (write as you go). Not the model of the code. *)
+Definition sub_steps_old (x : sub) : list step :=
+  let n := s_name x in
+  match s_src x with
+  | SrcDump o => [SPathFc n; SCheckOverwrite n; SDumpCall o; SOpenW n; SWrite n]
+  | SrcOrig c => [SPathFc n; SCheckOverwrite n; SSetReg c; SOpenW n; SWrite n]
+  | SrcPathHere => [SPathFc n; SCheckOverwrite n; SOpenW n; SReadHere n; SWrite n]
+  | SrcPathExt c => [SPathFc n; SCheckOverwrite n; SOpenW n; SReadExt c; SWrite n]
+  end.
+
+Definition steps_old (i : input) : list step :=
+  let m := i_main i in
+  if i_multifile i then
+    [SPathFc m; SCheckOverwrite m; SValidate]
+      ++ flat_map sub_steps_old (order (i_subs i))
+      ++ [SOpenW m; SDumpCall (i_mainr i); SWrite m]
+  else
+    [SPathFc m; SCheckOverwrite m; SOpenW m; SValidate; SDumpCall (i_full i); SWrite m].
+
+Definition save_old (i : input) : fs * option err :=
+  let r := exec i (steps_old i) (init i) in (st_fs (fst r), snd r).
